@@ -98,7 +98,9 @@ def run(M, rep, tier, only=None):
 
     # ---------------- R2
     F = M.classes.get("File")
-    ch = F.methods.get("_check_header") if F else None
+    from .common import private_helper
+    ch = private_helper(Ctx(M), "File", "_check_header", [("File", "__init__", "methods")],
+                        pick=lambda h: [a.arg for a in h.node.args.args][1:] == ["mode"]) if F else None
     if ch is None:
         rep.bad(R2, "File._check_header", "required mechanism not found")
     else:
